@@ -78,7 +78,18 @@ def random_plan(rng, toks, nfaults, kinds):
         if kind == "replace":
             t = toks[at]
             x = rng.random()
-            if t.kind == UNITS and x < 0.5:
+            if t.kind == NUM and at + 1 < len(toks) and \
+                    toks[at + 1].kind == UNITS and x < 0.6:
+                # the value a units expression belongs to turns into
+                # something that is not a number
+                k2, text, val = rng.choice([
+                    (KWVAL, "TRUE", ("bool", True)),
+                    (KWVAL, "false", ("bool", False)),
+                    (KWVAL, "NULL", ("none",)), (STR, '"s"', ("str", "s")),
+                    (NAME, "Zq9", ("str", "Zq9")),
+                    (DATE, "2001-01-01", ("date", "2001-01-01"))])
+                f.update(tkind=k2, text=text, val=core.listify(val))
+            elif t.kind == UNITS and x < 0.5:
                 f.update(tkind=BADUNITS, text=t.text[:-1] + " <s>",
                          val=None)
             elif t.kind in OPPOSITE and x < 0.5:
